@@ -177,9 +177,11 @@ structure RouteObs where
   cursor : Nat
   ring : List Nat
   counts : List Nat
+  rnd : Bool
 
 def routeObsOf (j : Json) : RouteObs :=
-  { k := getNatD j "k", cursor := getNatD j "cursor", ring := getNats j "ring", counts := getNats j "counts" }
+  { k := getNatD j "k", cursor := getNatD j "cursor", ring := getNats j "ring", counts := getNats j "counts",
+    rnd := (j.getObjValAs? String "picker").toOption == some "rnd" }
 
 /-- exact share of every target after `k` lookups from cursor 0 (`rr_target_share_any_schedule`; evaluated
 cycle-wise, equal to `targetShare` by `targetShareFast_eq`) -/
@@ -197,26 +199,34 @@ def stressH : Handler := fun _inp impl => do
   let lookups := getNatD impl "lookups"
   let routes := ((impl.getObjVal? "routes").toOption.bind (fun j => j.getArr?.toOption)).getD #[] |>.toList |>.map routeObsOf
   -- single-target routes never call the picker: their cursor stays 0
+  -- strategy rnd (`rnd_pick_is_a_ring_slot`): the cursor is never touched and only targets owning a ring slot
+  -- (positive weight) are chosen; strategy rr: the exact share
   let shareOK := routes.all (fun r =>
-    r.counts.sum == r.k && (if r.counts.length ≤ 1 then r.cursor == 0 else r.cursor == r.k) &&
-    r.counts == expectedCounts r)
+    r.counts.sum == r.k &&
+    (if r.rnd then
+       r.cursor == 0 && ((List.range r.counts.length).zip r.counts).all (fun (t, c) => c == 0 || r.ring.contains t)
+     else
+       (if r.counts.length ≤ 1 then r.cursor == 0 else r.cursor == r.k) && r.counts == expectedCounts r))
   let cache := (impl.getObjVal? "cache").toOption.getD Json.null
   let cacheOK := getNatD cache "entries" ≤ getNatD cache "size" && getNatD cache "n" ≤ getNatD cache "size" &&
     getNatD cache "h" < max (getNatD cache "n") 1 && getNatD cache "l" == getNatD cache "size"
   let accounted := (routes.map (·.k)).sum
   let model := Json.mkObj [("crashed", false), ("race", false), ("panics", (0 : Nat)), ("mismatch", (0 : Nat)),
-    ("routes", Json.arr (routes.map (fun r => natsJson (expectedCounts r))).toArray), ("cache_ok", true)]
+    ("routes", Json.arr (routes.map (fun r => if r.rnd then Json.str "any ring slot" else natsJson (expectedCounts r))).toArray),
+    ("cache_ok", true)]
   let agree := !crashed && panics == 0 && mismatch == 0 && shareOK && cacheOK
   let spec := agree && !race
   let tag := if crashed then "crash" else if panics > 0 then "panic" else if mismatch > 0 then
       (if routes.isEmpty then "location-crosstalk" else "wrong-target")
     else if !shareOK then "lost-share" else if !cacheOK then "cache-overflow" else if race then "data-race"
-    else if !raceEnabled then "no-race-detector" else if routes.isEmpty then "ok-redirect" else "ok"
+    else if !raceEnabled then "no-race-detector" else if routes.isEmpty then "ok-redirect"
+    else if routes.any (·.rnd) then "ok-rnd" else "ok"
   return ({ model := model, agree := agree, spec := spec,
             nontrivial := raceEnabled && decide (lookups ≥ 1000) && (routes.isEmpty || decide (accounted ≥ 1000)),
             tag := tag } : Verdict).toJson
 
 def streams : List (String × Handler) :=
   [("c06.globcache", gcH), ("c06.rr", rrH), ("c06.redirect", rdH),
-   ("c06.rr-race", stressH), ("c06.glob-race", stressH), ("c06.redirect-race", stressH), ("c06.mixed-race", stressH)]
+   ("c06.rr-race", stressH), ("c06.glob-race", stressH), ("c06.redirect-race", stressH), ("c06.mixed-race", stressH),
+   ("c06.rnd-race", stressH)]
 end Fabio.Driver.C06
